@@ -1,6 +1,7 @@
 import Ymq.Props.C09
 import Ymq.Props.C07C09
 import Ymq.Props.C09Ext
+import Ymq.Props.C07C09Ext
 #print axioms Ymq.C09.step_gcd
 #print axioms Ymq.C09.reduce64_inv
 #print axioms Ymq.C09.gcd_internal_spec
@@ -21,3 +22,4 @@ import Ymq.Props.C09Ext
 #print axioms Ymq.C09.reduce64_row_product
 #print axioms Ymq.C09.no_panic_ext_threshold
 #print axioms Ymq.C09.egcd_i64_half
+#print axioms Ymq.C09.zmodn_inv_spec_wide
